@@ -16,7 +16,7 @@ Lemma step_announced w i :
   | _ => []
   end.
 Proof.
-  destruct i; cbn [step]; try reflexivity.
+  destruct i; cbn [step]; rewrite ?on_about_to_finish_evs, ?on_source_setup_evs; try reflexivity.
   - destruct from_playbin; [|reflexivity]. unfold on_state_changed.
     destruct n, p; cbn; try reflexivity; destruct (target w); cbn; reflexivity.
   - unfold on_buffering. destruct (rank (target w) <? rank PAUSED); [reflexivity|].
@@ -29,16 +29,16 @@ Proof.
 Qed.
 
 Lemma announced_run : forall ins w,
-  announced (all_events w ins) = expected_announcements (pending_uri w) ins.
+  announced (all_events w ins) = expected_announcements (atf_cb (cfg w)) (pending_uri w) ins.
 Proof.
   induction ins as [|i t IH]; intros w; [reflexivity|].
-  rewrite all_events_cons, announced_app, step_announced, IH, step_pending_uri.
-  destruct i; try reflexivity.
+  rewrite all_events_cons, announced_app, step_announced, IH, step_pending_uri, step_atf_cb.
+  cbn [expected_announcements]. destruct i; reflexivity.
 Qed.
 
 Theorem stream_announced_once : forall ins,
-  announced (all_events init ins) = expected_announcements None ins.
-Proof. intros ins. apply announced_run. Qed.
+  announced (all_events init ins) = expected_announcements false None ins.
+Proof. intros ins. apply (announced_run ins init). Qed.
 
 (* when: the announcement is the first thing the STREAM_START step emits, and it carries
    the URI of the last set_uri of the history *)
@@ -67,6 +67,6 @@ Proof.
 Qed.
 
 Example two_streams_announced :
-  announced (all_events init [PrepareChange true; SetUri 7 false; Start true; StreamStart;
-                              SetUri 8 false; StreamStart; StreamStart]) = [7; 8; 8].
+  announced (all_events init [PrepareChange true; SetUri 7 plain; Start true; StreamStart;
+                              SetUri 8 plain; StreamStart; StreamStart]) = [7; 8; 8].
 Proof. vm_compute. reflexivity. Qed.
